@@ -326,3 +326,4 @@ from pyvc.api import depends  # noqa: E402
 depends(PROPERTY, "C17", ["firstlast"])      # generator contract + nwin == count, used by the window-loop harnesses
 depends(PROPERTY, "C03", ["init_params"])      # the window / overlap / taper / ratio the LF window harnesses start from are those init_params sets; by default the whole recording
 depends(PROPERTY, "C04", ["prepare_files_NP21", "prepare_files_NP24_forced", "compress_NP21"])      # the LF output starts empty: ceil(n/12) samples also when an earlier lf.bin exists
+depends(PROPERTY, "C09", ["sample2v_imec"])      # the window is read in volts with the AP factor and written back in samples with the LF factor: the two are the same number on NP2 probes (C09), whatever the header says about channel 0
